@@ -112,6 +112,41 @@ def _inside(ctx, node, outer):
     return False
 
 
+def deep_resorts(ctx, path):
+    """[(function, statement)] : stores, outside the assembling functions, that replace the location `path` (or a prefix
+    of it) of the metafile dictionary by a *deep* sorted copy of itself - i.e. re-sort every level below it."""
+    pt = _pt(ctx)
+    roots = meta_roots(ctx, pt)
+    kp = pt.key_paths(roots)
+    by_path = {}
+    for o, ps in kp.items():
+        for p in ps:
+            by_path.setdefault(p, set()).add(o)
+    out = []
+    for i in range(1, len(path) + 1):
+        w = path[:i]
+        parents = by_path.get(w[:-1], set())
+        for ins, hit in pt.insertions_into(parents):
+            if ins.fn is None or ins.fn.name in ASSEMBLERS or ins.how != "store" or ins.value is None:
+                continue
+            if (const_str(ins.key) if ins.key is not None else None) != w[-1]:
+                continue
+            info = sorted_copy_info(ctx.res, ins.value, ins.fn, ins.fn.module)
+            if info is not None and info[1]:
+                out.append((ins.fn, ins.node))
+    return out
+
+
+def _in_rekey_loop(ctx, node):
+    from .c06 import inplace_rekey
+    p = node
+    while p is not None:
+        if isinstance(p, ast.For) and inplace_rekey(p) is not None:
+            return True
+        p = ctx.prog.parent.get(p)
+    return False
+
+
 def integrity(ctx, rid, watched, what):
     """watched: set of key paths (tuples) such as ('info', 'files').  One obligation per statement that touches a watched
     location outside the assembling functions, plus one summary obligation per watched location."""
@@ -136,6 +171,12 @@ def integrity(ctx, rid, watched, what):
                 label, norm(ins.node), "removes entries from" if ins.how == "remove" else "reorders", what), ins.node)
         for ins, hit in pt.insertions_into(objs):
             if ins.fn is None or ins.fn.name in ASSEMBLERS:
+                continue
+            if _in_rekey_loop(ctx, ins.node):
+                if ins.how == "store":
+                    n += 1
+                    touched[w] += 1
+                    ctx.holds(rid, ins.fn, "%s: re-keyed in place (every key is popped and re-inserted with its own value, in sorted order)" % label, ins.node)
                 continue
             if any(o.kind in ("loaded", "loadedchild") for o in hit) and not any(o.kind not in ("loaded", "loadedchild") for o in hit):
                 continue
